@@ -268,17 +268,31 @@ func buildCases(es []EnumEntry, quick bool) []*Case {
 				if sp == nil || !sp.quick {
 					continue
 				}
-				// live for all six; plus the stored-height view, where the catch-up gossip reads
-				// the poisoned fields (block parts header and bits, round numbers)
-				add(e, "live", targetsMaj23(e))
-				if e.Family == "structured" && (e.Type == "CommitStepMessage" || e.Type == "NewRoundStepMessage") {
+				// quick: per type the modes in which its fields are consumed.  What the
+				// gossip routines read while the node is AT the claimed height (round numbers,
+				// the stored bit arrays) is addressed two heights ahead, so that it is in place
+				// for the whole height whatever the timing; the catch-up branches by claiming a
+				// stored height; HasVote/VoteSetMaj23/VoteSetBits act only when they arrive
+				// while the node is at the claimed height (live)
+				switch e.Type {
+				case "NewRoundStepMessage":
+					add(e, "ahead", targetsMaj23(e))
+					if e.Family == "structured" {
+						add(e, "behind", false)
+					}
+				case "CommitStepMessage":
+					add(e, "ahead", false)
 					add(e, "behind", false)
+				case "ProposalPOLMessage":
+					add(e, "ahead", targetsMaj23(e))
+				default:
+					add(e, "live", false)
 				}
 				continue
 			}
 			if cons {
 				for _, m := range []string{"live", "ahead", "behind"} {
-					add(e, m, m == "live" && targetsMaj23(e))
+					add(e, m, m == "ahead" && targetsMaj23(e))
 				}
 			} else {
 				add(e, "live", false)
@@ -373,7 +387,7 @@ func Assumptions() []string {
 		"part (ii) runs real goroutines: the scenario space (message type x field x boundary value x claimed-height mode, byte mutations, raw bytes per channel) is enumerated exhaustively, the schedule inside each run (goroutine interleaving, timers, MConnection flush throttle) is not controlled; a verdict therefore says 'no panic or stall was observed in this run of the scenario', and every violation candidate is re-run five times in a fresh process and reported only when it reproduces 5/5",
 		"a panic inside Reactor.Receive is contained by MConnection._recover (the node drops the attacker) and is allowed (DESIGN §6.3); any panic that terminates the node process is a violation; no progress within 20 s is inconclusive unless it reproduces 5/5",
 		"fast-sync's poolRoutine does not run here (the node is a validator, fastSync=false): block-sync messages only reach BlockchainReactor.Receive and the pool's bookkeeping; served-block tampering against a syncing node is C13's scenario space",
-		"the attacker addresses heights relative to the node's current height read in-process (live: same height, sent right after a height change so that it arrives within it; ahead: next height; behind: an already stored height with the real part-set header); a reactive attacker that learns the current proposal's part-set header and answers within the few milliseconds the single validator needs to commit is not modelled",
+		"the attacker addresses heights relative to the node's current height read in-process (live: same height, sent right after a height change so that it arrives within it, re-done when it arrives later; ahead: two heights ahead, in place before the node gets there; behind: an already stored height with the real part-set header); a reactive attacker that learns the current proposal's part-set header and answers within the few milliseconds the single validator needs to commit is not modelled",
 	}
 }
 
@@ -750,7 +764,7 @@ func Run(run *core.Run) core.Coverage {
 		"evaluations":               len(results),
 		"enumerated":                len(cases),
 		"distinct_nontrivial":       classes.Len(),
-		"rule":                      "one real single-validator node (real ConsensusState/timeoutTicker/receiveRoutine, Consensus+Blockchain+Mempool+PEX reactors on a real Switch) and one attacker Switch joined over net.Pipe through AddPeerWithConnection; per case the attacker sends a well-formed prelude (NewRoundStep claiming height T, plus a proposal naming POL round 0 for ProposalPOL, plus a vote that makes Receive allocate the peer's bit arrays for HasVote/VoteSetBits), then ONE poisoned message, then keeps the connection open; enumerated: for each of the 6 peer-state consensus messages, the 4 block-sync messages, the mempool tx message and the 2 pex messages a valid instance and every exported field (recursively) set to each boundary value (12 integers + valid±1, byte slices nil/empty/1/flipped/300, BitArray nil / Bits each integer / Elems nil,empty,short,long,all-ones, pointers nil, slices nil/empty/drop/dup/zero-entry/200x), x claimed height T in {live = node's height, ahead = +1, behind = -2 with the real part-set header} for consensus messages; thorough adds: poisoned NewRoundStep as very first message, every slice length prefix replaced by 2^20, 2^31-1, 2^63-1, -1, every single-byte substitution {00,01,7f,80,ff} and every truncation of every valid encoding, every valid message on every wrong channel, every 1-byte string on each of the 7 served channel ids, one message on an unserved channel id; distinct_nontrivial = distinct (type, field class, mode, result) classes; oracle per case: node process alive, 3 further blocks committed after delivery, claimed height passed by 3, >= 3 gossip sleep periods (and one queryMaj23 period where flagged) elapsed",
+		"rule":                      "one real single-validator node (real ConsensusState/timeoutTicker/receiveRoutine, Consensus+Blockchain+Mempool+PEX reactors on a real Switch) and one attacker Switch joined over net.Pipe through AddPeerWithConnection; per case the attacker sends a well-formed prelude (NewRoundStep claiming height T, plus a proposal naming POL round 0 for ProposalPOL, plus a vote that makes Receive allocate the peer's bit arrays for HasVote/VoteSetBits), then ONE poisoned message, then keeps the connection open; enumerated: for each of the 6 peer-state consensus messages, the 4 block-sync messages, the mempool tx message and the 2 pex messages a valid instance and every exported field (recursively) set to each boundary value (12 integers + valid±1, byte slices nil/empty/1/flipped/300, BitArray nil / Bits each integer / Elems nil,empty,short,long,all-ones, pointers nil, slices nil/empty/drop/dup/zero-entry/200x), x claimed height T in {live = node's height, ahead = +2, behind = -2 with the real part-set header} for consensus messages (quick: the modes in which the type's fields are consumed); thorough adds: poisoned NewRoundStep as very first message, every slice length prefix replaced by 2^20, 2^31-1, 2^63-1, -1, every single-byte substitution {00,01,7f,80,ff} and every truncation of every valid encoding, every valid message on every wrong channel, every 1-byte string on each of the 7 served channel ids, one message on an unserved channel id; distinct_nontrivial = distinct (type, field class, mode, result) classes; oracle per case: node process alive, 3 further blocks committed after delivery, claimed height passed by 3, >= 3 gossip sleep periods (and one queryMaj23 period where flagged) elapsed",
 		"outcomes":                  hist,
 		"cases_by_message_type":     byType,
 		"distinct_peer_state_views": prsShapes.Len(),
